@@ -407,6 +407,9 @@ func c17Command(rc *RunCtx, t *simrt.Tape) {
 	if cmdName == "obiannotate" {
 		args = append(args, "--length")
 	}
+	if hugeCSV {
+		spec.MaxSteps, spec.TimeoutSec = 20000000, 600 // 15 000 records through every stage
+	}
 	transport := "file"
 	if viaStdin {
 		spec.Stdin = in
